@@ -95,6 +95,17 @@ def build_case(prop, b):
         jobs = [dict(name="P", src=base_src, std=std, ic=True, want=["leaves"]),
                 dict(name="keep", src=src, std=std, ic=False, want=["leaves", "stripcpp", "textfull"]),
                 dict(name="ignore", src=src, std=std, ic=True, want=["leaves", "stripcpp"])]
+        # the same insertions in fixed form (explicitly selected: a '#' in column 1 makes the detector say "free")
+        per = fixed_lines_per_stmt(stmts)
+        flines = []
+        for i in range(1, len(stmts) + 2):
+            for e in ed:
+                if e["t"] == "cpp" and e["pos"] == i:
+                    flines.extend(perturb.CPP[e["a"]])
+            if i <= len(stmts):
+                flines.extend(per[i - 1])
+        if not any(e["t"] == "cmt" for e in ed):
+            jobs.append(dict(name="fix", src="\n".join(flines) + "\n", std=std, ic=True, fmt=(False, False), want=["leaves", "stripcpp"]))
     elif prop == "C07":
         g = next(e for e in ed if e["t"] == "garb")
         line = lay["last_line"][g["pos"]]
@@ -143,7 +154,12 @@ def build_case(prop, b):
         per_stmt = fixed_lines_per_stmt(stmts)
         for i, ls in enumerate(per_stmt, 1):
             for ln in ls:
-                flines.append((sty + ln[2:]) if (i in hidden and not ln.startswith(("C", "c", "*", "!"))) else ln)
+                if i in hidden and not ln.startswith(("C", "c", "*", "!")):
+                    lab = ln[:5].strip()
+                    # the label of a conditional line goes into columns 3-5
+                    flines.append(sty + (lab.rjust(3) if lab else "   ") + ln[5:])
+                else:
+                    flines.append(ln)
         fsrc = "\n".join(flines) + "\n"
         fp_src = "\n".join(l for ls in per_stmt for l in ls) + "\n"
         for strict in (False, True):
@@ -167,6 +183,18 @@ def build_case(prop, b):
                 dict(name="file", src=msrc, std=std, ic=True, files={"d1": files}, reader="file"),
                 dict(name="order", src=msrc, std=std, ic=True, files={"d1": files, "d2": decoy}, dirs=["d1", "d2"], reader="string"),
                 dict(name="absent", src=msrc, std=std, ic=True, files={"d1": {}}, reader="string", want=["leaves", "textfull"])]
+        # the same file included twice (legal): equals the program with those statements repeated
+        simple = [ab for ab in incs if all(out[i - 1]["k"] == "s" and out[i - 1]["l"] == 0 for i in range(ab[0], ab[1] + 1))
+                  and not any(o != ab and o[0] <= ab[0] and ab[1] <= o[1] for o in incs) and not any(o != ab and ab[0] <= o[0] and o[1] <= ab[1] for o in incs)]
+        if simple:
+            a_, b_ = simple[0]
+            fname = "inc%d.inc" % (sorted(incs, key=lambda ab: (ab[0], -ab[1])).index((a_, b_)) + 1)
+            line = "  include '%s'" % fname
+            k_ = main.index(line)
+            main2 = main[:k_ + 1] + [line] + main[k_ + 1:]
+            twice_stmts = stmts[:b_] + stmts[a_ - 1:b_] + stmts[b_:]
+            jobs.append(dict(name="Ptwice", src=render.free_text(twice_stmts), std=std, ic=True))
+            jobs.append(dict(name="twice", src="\n".join(main2) + "\n", std=std, ic=True, files={"d1": files}, reader="string"))
         if nested_names:
             # the first matching directory in include-path order wins, also for an INCLUDE inside an included file:
             # the nested files live in d1, the files that include them in d2 next to decoys of the nested ones
@@ -314,6 +342,11 @@ def events_for(prop, case, res, D, ctr):
             claim("obseq", "ignore", key="leaves", val=D(repr(exp_ign)))
             obs_ev("ignore", "nocpp", R["ignore"].get("st_nocpp"))
             claim("obssame", "ignore", key="nocpp", **ref("P"))
+            if "fix" in J:
+                obs_ev("fix", "leaves", real("fix"))
+                claim("obseq", "fix", key="leaves", val=D(repr(exp_ign)))
+                obs_ev("fix", "nocpp", R["fix"].get("st_nocpp"))
+                claim("obssame", "fix", key="nocpp", **ref("P"))
             txt = R["keep"].get("textfull")
             if txt is not None:
                 got = [perturb.cpp_norm(l) for l in txt.split("\n") if l.strip().startswith("#")]
@@ -349,6 +382,8 @@ def events_for(prop, case, res, D, ctr):
         for name in ("str", "file", "order", "split"):
             if name in J:
                 claim("sametree", "P", ci=False, **ref(name))
+        if "twice" in J:
+            claim("sametree", "Ptwice", ci=False, **ref("twice"))
         if not case["meta"]["nested"]:
             # unresolved includes are kept as Include_Stmt nodes exactly where the lines were
             pst = [x for x in (R["P"].get("leaves") or []) if x[0] == "s"]
